@@ -767,6 +767,16 @@ async fn header_sub_recv(
         .ok_or(SyncerError::P2p(P2pError::WorkerDied))
 }
 
+/// Verification hook: forwards to the module-private [`calculate_range_to_fetch`].
+#[cfg(eigerco_lumina_verif)]
+pub(crate) fn verif_calculate_range_to_fetch(
+    subjective_head_height: u64,
+    synced_headers: &[BlockRange],
+    limit: u64,
+) -> BlockRange {
+    calculate_range_to_fetch(subjective_head_height, synced_headers, limit)
+}
+
 #[cfg(test)]
 mod tests {
     use std::ops::RangeInclusive;
